@@ -830,7 +830,20 @@ pub fn collect_typedefs(
         match hir_table.def(*item) {
             hir::Def::EnumDef(enum_def) => define_enum(env, diagnostics, enum_def),
             hir::Def::StructDef(struct_def) => define_struct(env, diagnostics, struct_def),
-            hir::Def::TraitDef(trait_def) => define_trait(env, trait_def),
+            hir::Def::TraitDef(trait_def) => {
+                // `Name::m(x)` could mean the trait's method or the type's inherent method.
+                let name = tast::TastIdent(trait_def.name.to_ident_name());
+                if env.current().enums().contains_key(&name)
+                    || env.current().structs().contains_key(&name)
+                {
+                    diagnostics.push(Diagnostic::new(
+                        Stage::Typer,
+                        Severity::Error,
+                        format!("Trait {} has the name of a type of its package", name.0),
+                    ));
+                }
+                define_trait(env, trait_def)
+            }
             hir::Def::ImplBlock(impl_block) => {
                 if let Some(trait_name) = &impl_block.trait_name {
                     define_trait_impl(env, diagnostics, impl_block, trait_name, hir_table);
